@@ -1,2 +1,2 @@
 def gcd(a: i64, b: i64): i64 { if b == 0 { a } else { let r: i64 = a % b; gcd(b, r) } }
-def main(a: i64, b: i64): i64 { let g: i64 = gcd(a, b); println_i64(g); let l: i64 = (a / g) * b; println_i64(l); g }
+def main(a: i64, b: i64): i64 { let g: i64 = gcd(a, b); println_i64(g); let q: i64 = a / g; let l: i64 = q * b; println_i64(l); g }
